@@ -41,6 +41,7 @@ REQUIRED = ["histories", "connections_up", "connections_down",
             "barrier_unsupported_path", "reads_carrying_several_messages",
             "connection_level_events_compared", "registry_checks_in_down_handler",
             "histories_without_a_nexus_level_up_listener",
+            "histories_with_a_fatal_write_in_mid_read",
             "nexus_level_up_listeners_that_failed",
             "errors_resembling_barrier_unsupported", "messages_split_across_reads",
             "features_replies_on_stale_connections",
@@ -604,6 +605,110 @@ def _run_history (case, rep, w):
   return bool(mon.flags)
 
 
+def run_sendfault (case, rep):
+  """
+  The controller's write to a switch fails for good (EPIPE/ECONNRESET) while
+  the read that provoked it still holds further messages of that switch: the
+  connection is lost then and there, whatever the rest of that read says.
+  When things have settled its datapath id is not reachable through the
+  registry, it was announced down exactly as often as it was announced up
+  (at most once), and its socket is closed.
+  case: stage = "handshake" | "established", tail = messages behind the echo
+  request in the same read.
+  """
+  w = _world["w"]
+  core = w.core
+  def fire (key, what):
+    rep.violation("C09 " + key, what, case)
+  d = DPIDS[case.get("d", 0) % len(DPIDS)]
+  ups = []; downs = []
+  def on_up (e):
+    if e.dpid == d: ups.append(e.connection)
+  def on_down (e):
+    if e.dpid == d: downs.append(e.connection)
+  core.openflow.addListenerByName("ConnectionUp", on_up)
+  core.openflow.addListenerByName("ConnectionDown", on_down)
+  rep.count("histories")
+  rep.count("histories_with_a_fatal_write_in_mid_read")
+  c = sw_side = None
+  try:
+    c, sw_side = w.connect_switch_socket("sf")
+    w.run()
+    def wrote ():
+      b = bytes(sw_side.rx); sw_side.rx.clear()
+      return ofwire.dec_stream(b)
+    feat = ofwire.enc_message("features_reply", dict(
+      xid=1, datapath_id=d, n_buffers=0, n_tables=1, capabilities=0,
+      actions=0, ports=[ctl.phy_port(1), ctl.phy_port(2)]))
+    sw_side.send(ofwire.enc_message("hello", dict(xid=0))); w.run()
+    sw_side.send(feat); w.run()
+    bx = [m["xid"] for m in wrote() if m["name"] == "barrier_request"]
+    if not bx:
+      fire("handshake stalled: no barrier request after hello and the features reply",
+           "send-fault scenario"); return
+    barrier = ofwire.enc_message("barrier_reply", dict(xid=bx[-1]))
+    if case["stage"] == "established":
+      sw_side.send(barrier); w.run()
+      if len(ups) != 1:
+        fire("ConnectionUp not raised after features and barrier replies",
+             "send-fault scenario (up=%d)" % len(ups)); return
+    # from now on every write to this switch fails
+    c.send_script = ["fatal"]
+    blob = ofwire.enc_message("echo_request", dict(xid=5, body=b"x"))
+    for t in case["tail"]:
+      if t == "barrier": blob += barrier
+      elif t == "features":
+        blob += ofwire.enc_message("features_reply", dict(
+          xid=77, datapath_id=d, n_buffers=0, n_tables=1, capabilities=0,
+          actions=0, ports=[ctl.phy_port(1), ctl.phy_port(2)]))
+      elif t == "port_status":
+        blob += ofwire.enc_message("port_status", dict(xid=0, reason=2,
+                                                       desc=ctl.phy_port(2)))
+      elif t == "echo":
+        blob += ofwire.enc_message("echo_request", dict(xid=6, body=b"y"))
+    sw_side.send(blob)
+    w.run()
+    w.advance(1.0)
+    # the switch notices in the end, too
+    sw_side.close(); w.run()
+    rep.count("registry_checks")
+    con = core.openflow.getConnection(d)
+    if con is not None or d in core.openflow.connections:
+      fire("registry lists a datapath whose only connection failed and was closed",
+           "stage %s, read held an echo request and %r; connection %r" %
+           (case["stage"], case["tail"], con))
+    if len(ups) > 1:
+      fire("ConnectionUp raised twice for one connection", "send-fault scenario")
+    if not ups and downs: rep.count("down_without_up_not_judged")
+    if ups and len(downs) != 1:
+      fire("ConnectionDown not raised exactly once for a lost, announced connection",
+           "send-fault scenario: up=%d down=%d" % (len(ups), len(downs)))
+    if not c.closed:
+      fire("socket of a connection whose write failed is left open", case["stage"])
+  except Exception:
+    fire("harness-visible exception", traceback.format_exc()[-800:])
+  finally:
+    for h in (on_up, on_down):
+      try: core.openflow.removeListener(h)
+      except Exception: pass
+    try:
+      if sw_side is not None and not sw_side.closed: sw_side.close()
+      w.run()
+      for dd in list(core.openflow.connections.keys()): core.openflow._disconnect(dd)
+    except Exception:
+      pass
+
+
+def gen_sendfault ():
+  tails = [[], ["barrier"], ["features"], ["port_status"], ["echo"],
+           ["barrier", "port_status"], ["port_status", "barrier"],
+           ["features", "echo"], ["echo", "barrier", "echo"]]
+  for stage in ("handshake", "established"):
+    for tail in tails:
+      for d in (0, 1):
+        yield dict(kind="sendfault", stage=stage, tail=tail, d=d)
+
+
 _world = {}
 
 
@@ -618,6 +723,13 @@ def ensure_world ():
 
 def do_case (case, rep):
   ensure_world()
+  if case.get("kind") == "sendfault":
+    try:
+      run_sendfault(case, rep)
+    except Exception:
+      rep.violation("C09 harness-visible exception", traceback.format_exc()[-900:], case)
+    rep.case(repr(sorted(case.items())).encode(), nontrivial=True)
+    return
   try:
     nt = run_history(case, rep)
   except Exception:
@@ -743,7 +855,11 @@ def plan (tier, seed):
 def run (spec, rep):
   rng = random.Random("c09/%d/%s/%d" % (spec["seed"], spec["mode"],
                                          spec.get("sub", spec.get("shard", 0))))
-  if spec["mode"] == "single": g = gen_single(spec["shard"], spec["nshards"])
+  if spec["mode"] == "single":
+    g = gen_single(spec["shard"], spec["nshards"])
+    if spec["shard"] == 0:
+      import itertools
+      g = itertools.chain(gen_sendfault(), g)
   elif spec["mode"] == "multi": g = gen_multi(rng, spec["n"], spec["maxlen"])
   else: g = gen_reconnect(rng, spec["n"])
   first = True
